@@ -84,7 +84,7 @@ def smooth_models(draw):
   return gm
 
 
-_OPT45 = ('<option timestep="%(dt)s" integrator="%(int)s" solver="Newton" cone="pyramidal" jacobian="dense" iterations="%(it)s" tolerance="0" '
+_OPT45 = ('<option timestep="%(dt)s" integrator="%(int)s" solver="Newton" cone="pyramidal" jacobian="dense" iterations="%(it)s" tolerance="1e-15" '
           'ls_iterations="50" ls_tolerance="1e-9"/>')
 _T45_K = ('<mujoco>' + _OPT45 + '<worldbody><geom name="farplane" type="plane" size="5 5 .1" pos="0 0 -4" contype="0" conaffinity="2"/>'
           '<body name="b1" pos="0 0 .5"><joint name="h" type="hinge" axis="0 1 0" stiffness="%(k1)s" springref="0.2" damping="%(d1)s" armature="0.05" '
